@@ -424,14 +424,16 @@ func (s *State) diffIOSACLs(al, bl []*cmd, diff []edit.Range) {
 	// as a single command.
 	// Ignore move if both positions belong to the same block
 	// and attribute 'log' is unchanged.
-	moveACL := func(a *cmdAndPos, b *cmd, before, i int, moveOK bool) {
+	// Moved line only joins the block of lines before or behind insert
+	// position, if no line with other action is inserted in between.
+	moveACL := func(a *cmdAndPos, b *cmd, before, i int, joinPrev, joinNext bool) {
 		defer func() { a.cmd = nil }()
-		if moveOK && getPrintableCmd(a.cmd, s.a) == s.printNetspocCmd(b) {
+		if getPrintableCmd(a.cmd, s.a) == s.printNetspocCmd(b) {
 			oldID := idx2Block[a.pos]
-			if before > 0 && idx2Block[before-1] == oldID {
+			if joinPrev && before > 0 && idx2Block[before-1] == oldID {
 				return
 			}
-			if before < len(idx2Block) && idx2Block[before] == oldID {
+			if joinNext && before < len(idx2Block) && idx2Block[before] == oldID {
 				return
 			}
 		}
@@ -516,14 +518,23 @@ func (s *State) diffIOSACLs(al, bl []*cmd, diff []edit.Range) {
 			if r.HighB-r.LowB >= 10000 {
 				errlog.Abort("Can't insert more than 9999 ACL lines at once")
 			}
-			action0 := getIOSAction(bl[r.LowB])
-			moveOK := true
-			for i, b := range bl[r.LowB:r.HighB] {
-				moveOK = moveOK && action0 == getIOSAction(b)
+			ins := bl[r.LowB:r.HighB]
+			sameAction := func(l []*cmd, action string) bool {
+				for _, c := range l {
+					if action != getIOSAction(c) {
+						return false
+					}
+				}
+				return true
+			}
+			for i, b := range ins {
+				action := getIOSAction(b)
+				joinPrev := sameAction(ins[:i], action)
+				joinNext := sameAction(ins[i+1:], action)
 				p := s.printNetspocCmd(b)
 				p = stripLogRX.ReplaceAllLiteralString(p, "")
 				if cmdPos, found := delMap[p]; found && cmdPos.cmd != nil {
-					moveACL(cmdPos, b, r.LowA, i, moveOK)
+					moveACL(cmdPos, b, r.LowA, i, joinPrev, joinNext)
 				} else {
 					addACL(b, r.LowA, i)
 				}
